@@ -8,6 +8,6 @@ Extraction "model.ml"
   wal_key parse_wal_key
   real_cfg small_cfg init step unmodelled any_unmodelled
   c01_ok c03_ok c15_ok c02b_ok c02c_ok c06alo_ok
-  c07_ok c08_ok c09_strict_ok c09_alo_ok batch_crash stream_of
+  c07_ok c08_ok c09_strict_ok c09_alo_ok batch_crash stream_of id_drift
   serve_v0 serve_fixed split_frames responses resp_text enc_resp classify_frame c24_ok c24_known c24_rt_ok
   text_frame put_line get_line enc_frames.
